@@ -16,6 +16,7 @@ are no longer opaque tokens.
   `readF p x`      `± N · 10^(−p)`, `N = |x|·10^p` rounded half-even
   `Near v r tol`   `v` is a number whose exact value is within `tol` of the rational `r`
   `eBound p x`     `½ · 10^(E−p)`: half a unit of the last written digit (`0` for `x = 0`)
+  `dmigFld ec x`   `_dmig_field(x)` of wtdmig: `pyE 16 9`, or `pyE 16 8` when that is 17 characters; `dmigRead`, `dmigBound`
 
 `x : Dbl` is any fraction `± num / den` (`den > 0`), in particular every finite double.  The writers' own format strings
 are tied by the translator (`Props/C13Fmt.lean`: `dmigReal = {:16.9E}`, `cordLine… = {:16.8e}`, `gridDefaultForm`,
@@ -142,9 +143,24 @@ theorem cord2_roundtrip_values (name : Txt) (cid ref : Int) (abc : List Dbl)
   intro x _
   exact hscan x
 
+/-- **the DMIG value field holds every finite double** (`_dmig_field`, fix 4411a34 of finding F64): `'{:16.9E}'`, or
+`'{:16.8E}'` when that would be 17 characters — which happens exactly for a negative value with a three-digit exponent,
+and then the nine-digit text is 16 characters.  The field is exactly 16 columns wide, clean, and `nas_sscanf` reads it as
+the decimal it shows, within half a unit of its last digit (`½·10^(E−9)`, `½·10^(E−8)` in the fallback case). -/
+theorem dmig_field_fits (ec : Char) (hec : ec = 'e' ∨ ec = 'E' ∨ ec = 'D') (x : Dbl) (hd : 0 < x.den) (hr : InRange x) :
+    (dmigFld ec x).length = 16 ∧ CleanField 16 (dmigFld ec x) ∧ nasScan (dmigFld ec x) = dmigRead x ∧
+      Near (dmigRead x) (dblRat x) (dmigBound x) ∧
+      (¬ (fmtE 9 x).length ≤ 16 ↔ x.neg = true ∧ (expDigits (eExp 9 x)).length = 3) :=
+  ⟨dmigFld_length ec x hd hr, dmigFld_clean ec hec x hd hr, nasScan_dmigFld ec hec x, dmigRead_near x hd,
+    dmig_fallback_iff x hd hr⟩
+
+/-- every bit pattern stands for a value the field holds: a finite double is 0 or has a decimal exponent between −999
+and 999 (inf / nan are outside the model) -/
+theorem dmig_terms_in_range (v : Int) : 0 < (termVal v).den ∧ InRange (termVal v) :=
+  ⟨termVal_den_pos v, termVal_inRange v⟩
+
 /-- the hypotheses of `dmig_roundtrip_values`: the name is a word of at most 8 characters without `$`, `,` that
-`nas_sscanf` returns unchanged, labels / type / NCOL fit their fields, and every written value is representable in the
-16-column field (`'%.9E'` not longer than 16: every double except a negative one with a three-digit exponent) -/
+`nas_sscanf` returns unchanged; labels / type / NCOL fit their fields.  Nothing is asked of the VALUES. -/
 structure DmigRealOK (d : Dmig) : Prop where
   name_len : d.name.length ≤ 8
   name_d : '$' ∉ d.name
@@ -154,14 +170,14 @@ structure DmigRealOK (d : Dmig) : Prop where
   mtype_len : (dec d.mtype).length ≤ 8
   ncol_len : (dec d.ncol).length ≤ 8
   labels : ∀ c ∈ d.cards, (dec c.1.1).length ≤ 16 ∧ (dec c.1.2).length ≤ 16 ∧
-    ∀ e ∈ c.2, (dec e.1.1).length ≤ 16 ∧ (dec e.1.2).length ≤ 16 ∧ (fmtE 9 (termVal e.2.1)).length ≤ 16 ∧
-      (¬ d.mtype < 3 → (fmtE 9 (termVal e.2.2)).length ≤ 16)
+    ∀ e ∈ c.2, (dec e.1.1).length ≤ 16 ∧ (dec e.1.2).length ≤ 16
 
-/-- **`rddmig (wtdmig X) = X` on physical lines for REAL / COMPLEX valued terms, as VALUES**, forms 1/2/6/9, types 1–4:
-`rddmig` of the text of `wtdmig` (value fields `{:16.9E}`, `E → D` for the double types) returns exactly one frame, under
-the lower-cased name, with the sorted duplicate-free index of the non-null rows / columns, and every cell is the number
-the written field shows — within half a unit of the tenth significant digit of the term (imaginary part 0 for the real
-types, 0 for a zero term; the upper triangle of a form-6 matrix through the mirror assignment). -/
+/-- **`rddmig (wtdmig X) = X` on physical lines for REAL / COMPLEX valued terms of ANY magnitude, as VALUES**, forms
+1/2/6/9, types 1–4: `rddmig` of the text of `wtdmig` (value fields `_dmig_field`, `E → D` for the double types) returns
+exactly one frame, under the lower-cased name, with the sorted duplicate-free index of the non-null rows / columns, and
+every cell is the number the written field shows — within half a unit of the tenth significant digit of the term (of the
+ninth for a negative term with a three-digit exponent; imaginary part 0 for the real types, 0 for a zero term; the upper
+triangle of a form-6 matrix through the mirror assignment).  No hypothesis on the values. -/
 theorem dmig_roundtrip_values (d : Dmig) (hok : DmigRealOK d) (hshape : d.m.length = d.rowids.length)
     (hrn : d.rowids.Nodup) (hcn : d.ColsNodup) :
     ∃ r, rdDmig d.linesR = some [r] ∧ r.name = Bulk.lower d.name ∧
@@ -171,28 +187,39 @@ theorem dmig_roundtrip_values (d : Dmig) (hok : DmigRealOK d) (hshape : d.m.leng
       (∀ i j rl v, d.rowids[i]? = some rl → j < d.colids.length → d.At i j v →
         r.cell rl (d.colLabel j) =
           if v = (0, 0) then (Val.int 0, Val.int 0)
-          else (readE 9 (termVal v.1), if d.mtype < 3 then Val.int 0 else readE 9 (termVal v.2))) ∧
-      (∀ v : Int, Near (readE 9 (termVal v)) (dblRat (termVal v)) (eBound 9 (termVal v))) ∧
+          else (dmigRead (termVal v.1), if d.mtype < 3 then Val.int 0 else dmigRead (termVal v.2))) ∧
+      (∀ v : Int, Near (dmigRead (termVal v)) (dblRat (termVal v)) (dmigBound (termVal v))) ∧
       r.frame = r.rows.map fun rl => r.cols.map fun cl => r.cell rl cl := by
   have hec : ∀ d : Dmig, (if d.mtype % 2 = 0 then 'D' else 'E' : Char) = 'e' ∨ (if d.mtype % 2 = 0 then 'D' else 'E' : Char) = 'E' ∨
       (if d.mtype % 2 = 0 then 'D' else 'E' : Char) = 'D' := by
     intro d; split <;> simp
-  have henc : encF d.fmtR = fun v => readE 9 (termVal v) := by
+  have henc : encF d.fmtR = fun v => dmigRead (termVal v) := by
     funext v
-    exact nasScan_pyE 16 9 (by decide) _ (hec d) (termVal v)
+    exact nasScan_dmigFld _ (hec d) (termVal v)
   have hclean : d.CleanF d.fmtR := by
     refine ⟨hok.name_len, hok.name_d, hok.name_c, hok.name8, hok.name16, hok.mtype_len, hok.ncol_len, ?_⟩
     intro c hc
     obtain ⟨h1, h2, h3⟩ := hok.labels c hc
     refine ⟨h1, h2, fun e he => ?_⟩
-    obtain ⟨g1, g2, g3, g4⟩ := h3 e he
-    exact ⟨g1, g2, pyE_clean 16 9 (by decide) _ (hec d) _ g3, fun hm => pyE_clean 16 9 (by decide) _ (hec d) _ (g4 hm)⟩
+    obtain ⟨g1, g2⟩ := h3 e he
+    exact ⟨g1, g2, dmigFld_clean _ (hec d) _ (termVal_den_pos _) (termVal_inRange _),
+      fun _ => dmigFld_clean _ (hec d) _ (termVal_den_pos _) (termVal_inRange _)⟩
   have hlines := rdDmig_linesF d.fmtR d hclean
   rw [henc] at hlines
   refine ⟨_, hlines, rfl, readFrame_sorted _ d _, mem_readFrame_rows _ d _ hshape, mem_readFrame_cols _ d _ hshape, ?_,
-    fun v => readE_near 9 _ (termVal_den_pos v), rfl⟩
+    fun v => dmigRead_near _ (termVal_den_pos v), rfl⟩
   intro i j rl v hi hj hat
   exact cell_written _ d _ hshape hrn hcn i j rl v hi hj hat
+
+/-- **the formal side of finding F65** (`wttabled1`, open): the default pair format `{:16.9E}{:16.9E}` has no fallback.
+For `x = −1e100` the ordinate field is 17 characters — so the fit hypothesis of `tabled1_roundtrip_values` is necessary —
+and the 16 columns the reader slices off read as `−1e10`, not as the value written. -/
+theorem tabled1_field_overflow_counterexample :
+    (pyE 16 9 'E' ⟨true, 10 ^ 100, 1⟩).length = 17 ∧ ¬ (fmtE 9 ⟨true, 10 ^ 100, 1⟩).length ≤ 16 ∧
+    nasScan ((pyE 16 9 'E' ⟨true, 10 ^ 100, 1⟩).take 16) = .num (-1000000000) 1 ∧
+    readE 9 ⟨true, 10 ^ 100, 1⟩ = .num (-1000000000) 91 ∧
+    (dmigFld 'D' ⟨true, 10 ^ 100, 1⟩ = txt "-1.00000000D+100" ∧ dmigRead ⟨true, 10 ^ 100, 1⟩ = .num (-100000000) 92) := by
+  refine ⟨?_, ?_, ?_, ?_, ?_, ?_⟩ <;> decide +kernel
 
 /-- the integer-valued writer model of `Props/C13Dmig.lean` is the instance `fmt = fmtE9` of the same text -/
 theorem dmig_lines_int_instance (d : Dmig) : d.lines = d.linesF fun v => fmtE9 v d.ec := rfl
@@ -207,8 +234,8 @@ example : pyE 16 9 'E' ⟨false, 12, 1⟩ = txt " 1.200000000E+01" ∧ pyE 16 9 
 example : nasScan (txt " 1.200000000D+01") = .num 1200000000 (-8) ∧ readE 9 ⟨false, 12, 1⟩ = .num 1200000000 (-8) := by
   constructor <;> decide +kernel
 
-/-- a negative value with a three-digit exponent is NOT representable in the 16-column field (17 characters): the
-hypothesis `(fmtE 9 x).length ≤ 16` of `DmigRealOK` excludes exactly such terms -/
+/-- a negative value with a three-digit exponent needs 17 characters in `'%.9E'` (the fallback case of `_dmig_field`; the
+fit hypothesis of `tabled1_roundtrip_values`) -/
 example : (fmtE 9 ⟨true, 10 ^ 100, 1⟩).length = 17 ∧ (fmtE 9 ⟨false, 10 ^ 100, 1⟩).length = 16 := by
   constructor <;> decide +kernel
 
